@@ -16,10 +16,12 @@ from ..refs import units_ref as R
 
 ID = "C19"
 RULE = ("Environments of 3-8 parameters (bool, (u)int16/32/64, float32/64/128, str; scalars and 1-3-D arrays; units; "
-        "values at the width limits; floats that need 17 significant digits; strings with blanks and, as a separate "
+        "values at the width limits; floats that need 17 significant digits; strings with blanks, '#', braces, brackets, "
+        "words that look like other literals and, as a separate "
         "class, quotes / $ / backslash; a none value for the back-ends that can express it) exported through every "
         "back-end with generated options (units on/off, #define / const selections, renaming on/off, select by query "
-        "or tags). Oracle = the format's own reader: DIP re-parse; json / yaml / toml loaders; bash 'source' + "
+        "or tags); in two thirds of the cases ONE parsed environment serves all back-ends of the case, in a rotated order, "
+        "and the first back-end is exported once more at the end. Oracle = the format's own reader: DIP re-parse; json / yaml / toml loaders; bash 'source' + "
         "'declare -p'; generated printer programs compiled with gcc (C11 _Generic, sizeof), g++ (std::is_same on "
         "decltype), gfortran (kind(), shape()) and rustc (type_name_of_val); names by the documented mapping; values "
         "exact for ints / bools / strings and to the declared width for floats; shape and element [i][j][k] order; "
@@ -40,13 +42,14 @@ INT_T = D.INT_TYPES
 FLT_T = D.FLOAT_TYPES
 FLOATS = [0.1, 12.1, 15.0, 23.7, 1.0 / 3.0, 6.02214076e23, 1e-7, -2.5, 0.5, 299792458.0, 1.7976931348623157e308, 5e-324 * 2 ** 60,
           123456.789012345, 0.0, -0.75, 3.0]
-WORDS = ["Configuration test", "abc", "x", "two  blanks", "a,b;c", "UPPER lower", "tab-less", "#hash", "per%cent", "semi;"]
+WORDS = ["Configuration test", "abc", "x", "two  blanks", "a,b;c", "UPPER lower", "tab-less", "#hash", "per%cent", "semi;", "v2#beta",
+         "{curly}", "[1,2]", "true", "12", "none-such"]
 SPECIAL = ['say "hi"', "it's", "cost $5", "back\\slash", "`tick`", "a\"b'c"]
 
 
 @st.composite
 def param(draw, idx, allow_none):
-    t = draw(st.sampled_from(["bool", "int", "float", "str", "int", "float"] + list(INT_T) + list(FLT_T)))
+    t = draw(st.sampled_from(["bool", "int", "float", "str", "int", "float", "str", "str", "bool"] + list(INT_T) + list(FLT_T)))
     rank = draw(st.sampled_from([0, 0, 0, 1, 1, 2, 2, 3]))
     shape = [draw(st.integers(1, 3)) for _ in range(rank)]
 
@@ -99,6 +102,7 @@ def env_case(draw):
     return {"params": params, "units": draw(st.booleans()), "rename": draw(st.sampled_from([True, True, False])),
             "define": define, "const": const,
             "select": draw(st.sampled_from([None, None, None, "tags", "query"])),
+            "share_env": draw(st.sampled_from([True, True, False])), "rotate": draw(st.integers(0, 8)),
             "backends": draw(st.sampled_from([BACKENDS, BACKENDS, ["dip", "json", "yaml", "toml", "bash"], ["c", "cpp", "fortran", "rust"]]))}
 
 
@@ -244,8 +248,10 @@ def read_data_format(backend, text, case, ps):
         import yaml
         data = yaml.safe_load(text)
     else:
-        import toml
-        data = toml.loads(text)
+        # the standard library's spec-conformant reader (the third-party 'toml' loader mis-reads a quoted key followed by
+        # a value with an escaped quote, which is valid TOML)
+        import tomllib
+        data = tomllib.loads(text)
     if set(data.keys()) - {".".join(p["path"]) for p in ps}:
         extra = set(data.keys()) - {".".join(p["path"]) for p in ps}
         raise Mismatch("selection", f"exports parameters that were not selected: {sorted(extra)}")
@@ -707,7 +713,7 @@ def parse_env(text):
         return dip.parse()
 
 
-def check_backend(backend, case, tmp, v):
+def check_backend(backend, case, tmp, v, envs=None):
     """Export the applicable selected parameters through one back-end and compare; on a rejected file re-export
     parameter by parameter to attribute the failure."""
     sel = [p for p in selected(case) if applicable(backend, p, case)]
@@ -724,7 +730,7 @@ def check_backend(backend, case, tmp, v):
     sel = selected(sub)
     if not sel:
         return
-    results = attempt(backend, sub, sel, tmp, v)
+    results = attempt(backend, sub, sel, tmp, v, envs=envs)
     if results == "retry-single":
         for i, p in enumerate(sel):
             single = dict(sub, params=[p], select=None, define=[0] if ".".join(p["path"]) in names_def else [],
@@ -732,11 +738,17 @@ def check_backend(backend, case, tmp, v):
             attempt(backend, single, [p], os.path.join(tmp, f"s{i}"), v, single=True)
 
 
-def attempt(backend, case, sel, tmp, v, single=False):
+def attempt(backend, case, sel, tmp, v, single=False, envs=None):
     os.makedirs(tmp, exist_ok=True)
     text_env = dip_text(case)
     try:
-        env = parse_env(text_env)
+        if envs is not None and text_env in envs:
+            env = envs[text_env]        # the very environment an earlier back-end exported from
+            v.label("exported_again_from_same_environment")
+        else:
+            env = parse_env(text_env)
+            if envs is not None:
+                envs[text_env] = env
     except Exception as e:
         raise HarnessError(f"generated environment does not parse: {e!r}\n{text_env}")
     try:
@@ -798,8 +810,16 @@ def check(case):
     v = Verdict()
     tmp = tempfile.mkdtemp(prefix="svc19_")
     try:
-        for b in case["backends"]:
-            check_backend(b, case, os.path.join(tmp, b), v)
+        # one parsed environment serves all back-ends of a case, in a generated order, and the first back-end is run once
+        # more at the end: an export must not change what the next one sees
+        envs = {} if case.get("share_env") else None
+        order = list(case["backends"])
+        if case.get("share_env"):
+            k = case.get("rotate", 0) % len(order)
+            order = order[k:] + order[:k]
+            order.append(order[0])
+        for i, b in enumerate(order):
+            check_backend(b, case, os.path.join(tmp, f"{i}{b}"), v, envs)
     finally:
         shutil.rmtree(tmp, ignore_errors=True)
         if not R.tables_pristine():
